@@ -566,8 +566,11 @@ impl<TStdlib: Stdlib, TStdIn: Input, TStdOut: Printer, TLpt1: Printer>
                 self.value_stack.push(v);
             }
             Instruction::PopValueStackIntoA => {
-                let v = self.value_stack.pop().expect("value_stack underflow!");
-                self.registers_mut().set_a(v);
+                // the stack can be empty if the end of a SELECT CASE is reached without
+                // having entered it (e.g. RESUME NEXT after an error in the SELECT CASE expression)
+                if let Some(v) = self.value_stack.pop() {
+                    self.registers_mut().set_a(v);
+                }
             }
             Instruction::PrintSetPrinterType(printer_type) => {
                 self.print_state.set_printer_type(*printer_type);
